@@ -15,7 +15,8 @@
   * `triLines`: the complete scanline run (up to the first `None` of the non-fused iterator) exists,
     is what the `for` loop of `draw_styled` sees (`toList`'s fuel is never used up), non-empty lines;
   * `triPix_run`: the pixel iterator's complete run is the concatenation of the coloured scanlines'
-    points (the `loop` of `next` never uses up its fuel);
+    points (the `loop` of `next` never uses up its fuel); `triPixels_eq_run`: the model's `pixels()`
+    IS that run (its fuel, the total length of the scanlines, is never used up);
   * `tri_writes`: the write sequences coincide.
 -/
 import EG.Lemmas.C01ThickPoly
@@ -413,37 +414,53 @@ theorem triScanlineRun_total (t : Tri) (style : TriStyle) : ∃ L, triScanlineRu
   obtain ⟨L, hL, -, -⟩ := triLines it
   exact ⟨L, by unfold triScanlineRun; rw [hit]; exact hL⟩
 
-/-- **`pixels()` of a styled triangle** walks the coloured scanlines of the run point by point —
-provided the model's pixel budget was not used up. -/
-theorem triPixels_eq_run (t : Tri) (style : TriStyle) (hf : TriFirstNoneFinal t style) (bb : Rect)
-    (hbb : triStyledBoundingBox t style = some bb) (px : Writes) (hpx : triPixels t style = some px)
-    (hlt : px.length < 3 * (bb.size.w + 2 * style.strokeWidth + 4) * (bb.size.h + 1) + 2) :
+theorem typedPixels_length_le (fc sc : Option Nat) (x : Scanline × PointType) :
+    (typedPixels fc sc x).length ≤ (x.1.xe - x.1.xs).toNat := by
+  unfold typedPixels linePixels
+  cases kindColor fc sc x.2 with
+  | none => exact Nat.zero_le _
+  | some c => simp only [List.length_map, Scanline.points_length]; exact Nat.le_refl _
+
+theorem flatMap_length_le_sum {α β : Type} (L : List α) (f : α → List β) (g : α → Nat)
+    (h : ∀ a, (f a).length ≤ g a) : (L.flatMap f).length ≤ (L.map g).sum := by
+  induction L with
+  | nil => simp
+  | cons a L ih =>
+    rw [List.flatMap_cons, List.length_append, List.map_cons, List.sum_cons]
+    have := h a
+    omega
+
+/-- The model's fuel for `pixels()` in terms of the scanline run. -/
+theorem triPixelFuel_eq (t : Tri) (style : TriStyle) (L : List (Scanline × PointType))
+    (hL : triScanlineRun t style = some L) :
+    triPixelFuel t style = some ((L.map (fun x => (x.1.xe - x.1.xs).toNat)).sum + 1) := by
+  unfold triScanlineRun at hL
+  unfold triPixelFuel
+  cases hli : triScanlines t style with
+  | none => rw [hli] at hL; cases hL
+  | some li =>
+    rw [hli] at hL
+    simp only [Option.bind_some] at hL
+    simp only [hL, Option.bind_eq_bind, Option.bind_some, pure]
+
+/-- **`pixels()` of a styled triangle is the complete pixel run**: it walks the coloured scanlines of
+the scanline run (what the `for` loop of `draw_styled` sees) point by point; the model's fuel is never
+used up. -/
+theorem triPixels_eq_run (t : Tri) (style : TriStyle) (hf : TriFirstNoneFinal t style) :
     ∃ L, triScanlineRun t style = some L ∧ (∀ x ∈ L, x.1.isEmpty = false) ∧
-      px = L.flatMap (typedPixels style.fillColor style.effectiveStrokeColor) := by
+      triPixels t style = some (L.flatMap (typedPixels style.fillColor style.effectiveStrokeColor)) := by
   obtain ⟨li, hli⟩ := triScanlines_total t style
   obtain ⟨L, hL, hrun, hne⟩ := triLines li
-  refine ⟨L, by unfold triScanlineRun; rw [hli]; exact hL, hne, ?_⟩
-  obtain ⟨it, hit, hpix⟩ := triPix_new t style hf li hli L hrun
-  unfold triPixels at hpx
-  simp only [hbb, hit, Option.bind_eq_bind, Option.bind_some] at hpx
-  rw [triPixels_toListFuel_eq] at hpx
-  exact (listFuel_run _ it px hpx hlt).unique hpix
-
-/-- Whatever the budget: the model's `pixels()` of a styled triangle is the first `budget` pixels of
-the coloured scanlines of the run walked point by point (so `TriPixelBudgetOK` fails only by
-truncation). -/
-theorem triPixels_prefix_run (t : Tri) (style : TriStyle) (hf : TriFirstNoneFinal t style) (bb : Rect)
-    (hbb : triStyledBoundingBox t style = some bb) :
-    ∃ L, triScanlineRun t style = some L ∧
-      triPixels t style = some ((L.flatMap (typedPixels style.fillColor style.effectiveStrokeColor)).take
-        (3 * (bb.size.w + 2 * style.strokeWidth + 4) * (bb.size.h + 1) + 2)) := by
-  obtain ⟨li, hli⟩ := triScanlines_total t style
-  obtain ⟨L, hL, hrun, -⟩ := triLines li
-  refine ⟨L, by unfold triScanlineRun; rw [hli]; exact hL, ?_⟩
+  have hLr : triScanlineRun t style = some L := by unfold triScanlineRun; rw [hli]; exact hL
+  refine ⟨L, hLr, hne, ?_⟩
   obtain ⟨it, hit, hpix⟩ := triPix_new t style hf li hli L hrun
   unfold triPixels
-  simp only [hbb, hit, Option.bind_eq_bind, Option.bind_some]
-  rw [triPixels_toListFuel_eq, hpix.listFuel_take]
+  simp only [triPixelFuel_eq t style L hLr, hit, Option.bind_eq_bind, Option.bind_some]
+  rw [triPixels_toListFuel_eq]
+  apply hpix.listFuel
+  have := flatMap_length_le_sum L (typedPixels style.fillColor style.effectiveStrokeColor)
+    (fun x => (x.1.xe - x.1.xs).toNat) (typedPixels_length_le _ _)
+  omega
 
 theorem isTransparent_colors {style : TriStyle} (h : style.isTransparent = true) :
     style.fillColor = none ∧ style.effectiveStrokeColor = none := by
@@ -463,16 +480,15 @@ theorem flatMap_typedPixels_none (L : List (Scanline × PointType)) :
   cases k <;> rfl
 
 /-- **Styled triangle, every style: the writes of `draw()` are the pixels of `pixels()`, in the same
-order and with the same colours.** `hlt`: the model's pixel budget was not used up; `hr`: no
-`fill_solid` rectangle saturates `i32`. -/
-theorem tri_writes (t : Tri) (style : TriStyle) (hf : TriFirstNoneFinal t style) (B : Rect) (calls : List (Rect × Nat)) (px : Writes)
+order and with the same colours.** `hr`: no `fill_solid` rectangle saturates `i32`. -/
+theorem tri_writes (t : Tri) (style : TriStyle) (hf : TriFirstNoneFinal t style) (B : Rect)
+    (calls : List (Rect × Nat)) (px : Writes)
     (hd : triDraw t style = some calls) (hpx : triPixels t style = some px)
-    (hlt : ∀ bb, triStyledBoundingBox t style = some bb →
-      px.length < 3 * (bb.size.w + 2 * style.strokeWidth + 4) * (bb.size.h + 1) + 2)
     (hr : ∀ rc ∈ calls, rc.1.InRange) :
     (solidCalls calls).flatMap (Call.lowerNative B) = px := by
-  obtain ⟨bb, hbb⟩ := triStyledBoundingBox_total t style
-  obtain ⟨L, hL, hne, hpx'⟩ := triPixels_eq_run t style hf bb hbb px hpx (hlt bb hbb)
+  obtain ⟨L, hL, hne, hpx''⟩ := triPixels_eq_run t style hf
+  have hpx' : px = L.flatMap (typedPixels style.fillColor style.effectiveStrokeColor) := by
+    rw [hpx] at hpx''; exact Option.some.inj hpx''
   rw [triDraw_eq] at hd
   by_cases htr : style.isTransparent = true
   · simp only [htr, ↓reduceIte, Option.some.injEq] at hd
@@ -486,7 +502,7 @@ theorem tri_writes (t : Tri) (style : TriStyle) (hf : TriFirstNoneFinal t style)
     simp only [Option.map_some, Option.some.injEq] at hd
     subst hd
     rw [hpx']
-    clear hpx' hL hlt hpx
+    clear hpx' hpx'' hL hpx
     induction L with
     | nil => rfl
     | cons x L ih =>
@@ -549,54 +565,30 @@ def TriRectsInRange (t : Tri) (style : TriStyle) : Prop :=
 instance (t : Tri) (style : TriStyle) : Decidable (TriRectsInRange t style) := by
   unfold TriRectsInRange; split <;> exact inferInstance
 
-/-- Guard (model artefact): the fuel with which the model drains `pixels()` of a styled triangle was
-not used up, i.e. the model's pixel list is complete. -/
-def TriPixelBudgetOK (t : Tri) (style : TriStyle) : Prop :=
-  match triPixels t style, triStyledBoundingBox t style with
-  | some px, some bb => px.length < 3 * (bb.size.w + 2 * style.strokeWidth + 4) * (bb.size.h + 1) + 2
-  | _, _ => True
-
-instance (t : Tri) (style : TriStyle) : Decidable (TriPixelBudgetOK t style) := by
-  unfold TriPixelBudgetOK; split <;> exact inferInstance
-
-/-- `tri_writes` with the two guards. -/
+/-- `tri_writes` with the range guard. -/
 theorem triStyled_writes (t : Tri) (style : TriStyle) (hf : TriFirstNoneFinal t style) (B : Rect)
-    (hr : TriRectsInRange t style) (hb : TriPixelBudgetOK t style) (calls : List (Rect × Nat)) (px : Writes)
+    (hr : TriRectsInRange t style) (calls : List (Rect × Nat)) (px : Writes)
     (hd : triDraw t style = some calls) (hpx : triPixels t style = some px) :
     (solidCalls calls).flatMap (Call.lowerNative B) = px := by
   apply tri_writes t style hf B calls px hd hpx
-  · intro bb hbb
-    unfold TriPixelBudgetOK at hb
-    rw [hpx, hbb] at hb
-    exact hb
-  · unfold TriRectsInRange at hr
-    rw [hd] at hr
-    exact hr
+  unfold TriRectsInRange at hr
+  rw [hd] at hr
+  exact hr
 
 /-- `draw()` and `pixels()` visit the same typed scanlines in the same order: one list `L` gives
 both the `fill_solid` calls (coloured scanlines, as rectangles) and the pixels (coloured scanlines,
 point by point). -/
-theorem tri_same_scanlines (t : Tri) (style : TriStyle) (hf : TriFirstNoneFinal t style)
-    (hb : TriPixelBudgetOK t style)
-    (calls : List (Rect × Nat)) (px : Writes)
-    (hd : triDraw t style = some calls) (hpx : triPixels t style = some px) :
+theorem tri_same_scanlines (t : Tri) (style : TriStyle) (hf : TriFirstNoneFinal t style) :
     ∃ L : List (Scanline × PointType), (∀ x ∈ L, x.1.isEmpty = false) ∧
-      calls = (if style.isTransparent then [] else L.filterMap (triCall style)) ∧
-      px = L.flatMap (typedPixels style.fillColor style.effectiveStrokeColor) := by
-  obtain ⟨bb, hbb⟩ := triStyledBoundingBox_total t style
-  have hlt : px.length < 3 * (bb.size.w + 2 * style.strokeWidth + 4) * (bb.size.h + 1) + 2 := by
-    unfold TriPixelBudgetOK at hb
-    rw [hpx, hbb] at hb
-    exact hb
-  obtain ⟨L, hL, hne, hpx'⟩ := triPixels_eq_run t style hf bb hbb px hpx hlt
+      triDraw t style = some (if style.isTransparent then [] else L.filterMap (triCall style)) ∧
+      triPixels t style = some (L.flatMap (typedPixels style.fillColor style.effectiveStrokeColor)) := by
+  obtain ⟨L, hL, hne, hpx'⟩ := triPixels_eq_run t style hf
   refine ⟨L, hne, ?_, hpx'⟩
-  rw [triDraw_eq] at hd
+  rw [triDraw_eq]
   unfold triScanlineRun at hL
   by_cases htr : style.isTransparent = true
-  · simp only [htr, ↓reduceIte, Option.some.injEq] at hd ⊢
-    exact hd.symm
-  · simp only [htr, Bool.false_eq_true, ↓reduceIte, hL, Option.map_some, Option.some.injEq] at hd ⊢
-    exact hd.symm
+  · simp only [htr, ↓reduceIte]
+  · simp only [htr, Bool.false_eq_true, ↓reduceIte, hL, Option.map_some]
 
 end C01Thick
 end EG
